@@ -30,7 +30,7 @@
 //@ header
     pub fn create(self, f: Callback) -> (r: CreateRes)
         // the watcher created is of the kind asked for (the recommended back end, or the poll back end with the configured interval) and starts empty
-        ensures r.r is Ok ==> r.r->Ok_0.kind == self && r.r->Ok_0.registered@ =~= Map::<PathS, bool>::empty(), // OBL:C13.watcher_create.creates_the_configured_kind
+        ensures r.r is Ok ==> r.r->Ok_0.kind == self && r.r->Ok_0.registered@ =~= Map::<PathS, bool>::empty(), // OBL:C13+C01.watcher_create.creates_the_configured_kind
 //@ prologue
     CreateRes { r:
 //@ epilogue
@@ -71,16 +71,16 @@ pub fn fs_worker(config: &Config, errors: ErrTx, events: EvTx, env: &mut FEnv) -
     let ghost mut round0: nat = 0;
 //@ loop 0
 invariant
-    mirror(watcher, pathset.v@, watcher_type), // OBL:C13.fs_worker.inv_pathset_mirrors_the_active_watcher
-    env.round@ > 0 ==> after_round(env, watcher), // OBL:C13.fs_worker.inv_registration_converges_to_the_configuration
+    mirror(watcher, pathset.v@, watcher_type), // OBL:C13+C01.fs_worker.inv_pathset_mirrors_the_active_watcher
+    env.round@ > 0 ==> after_round(env, watcher), // OBL:C13+C01.fs_worker.inv_registration_converges_to_the_configuration
     env.err_sent@ == env.err_due@, // OBL:C13+C15.fs_worker.inv_each_failed_registration_reported_once_per_path
 //@ loop 1
 invariant
     0 <= vx_it0.pos@ <= vx_it0.v@.len(),
     forall|i: int| 0 <= i < vx_it0.v@.len() ==> pathset.v@.contains(*(#[trigger] vx_it0.v@[i])),
     forall|x: WatchedPath| #[trigger] pathset.v@.contains(x) ==> 0 <= vx_idx(vx_it0.v@, x) < vx_it0.v@.len() && *vx_it0.v@[vx_idx(vx_it0.v@, x)] == x,
-    forall|j: int| 0 <= j < to_drop@.len() ==> pathset.v@.contains(#[trigger] to_drop@[j]) && !config_pathset@.contains(to_drop@[j]), // OBL:C13.fs_worker.diff_names_exactly_the_stale_and_the_missing_paths
-    forall|i: int| 0 <= i < vx_it0.pos@ && !config_pathset@.contains(*(#[trigger] vx_it0.v@[i])) ==> to_drop@.contains(*vx_it0.v@[i]), // OBL:C13.fs_worker.diff_names_exactly_the_stale_and_the_missing_paths
+    forall|j: int| 0 <= j < to_drop@.len() ==> pathset.v@.contains(#[trigger] to_drop@[j]) && !config_pathset@.contains(to_drop@[j]), // OBL:C13+C01.fs_worker.diff_names_exactly_the_stale_and_the_missing_paths
+    forall|i: int| 0 <= i < vx_it0.pos@ && !config_pathset@.contains(*(#[trigger] vx_it0.v@[i])) ==> to_drop@.contains(*vx_it0.v@[i]), // OBL:C13+C01.fs_worker.diff_names_exactly_the_stale_and_the_missing_paths
 ensures
     vx_it0.pos@ == vx_it0.v@.len(),
 body_start:
@@ -90,7 +90,7 @@ body_end:
 proof { lemma_push_contains(td0, *path); }
 after:
 proof {
-    assert forall|x: WatchedPath| #[trigger] pathset.v@.contains(x) && !config_pathset@.contains(x) implies to_drop@.contains(x) by { // OBL:C13.fs_worker.diff_names_exactly_the_stale_and_the_missing_paths
+    assert forall|x: WatchedPath| #[trigger] pathset.v@.contains(x) && !config_pathset@.contains(x) implies to_drop@.contains(x) by { // OBL:C13+C01.fs_worker.diff_names_exactly_the_stale_and_the_missing_paths
         let i = vx_idx(vx_it0.v@, x);
         assert(*vx_it0.v@[i] == x);
     }
@@ -98,8 +98,8 @@ proof {
 //@ loop 2
 invariant
     0 <= vx_it1.pos@ <= vx_it1.v@.len(), vx_it1.v@ == env.cfg_paths@,
-    forall|j: int| 0 <= j < to_watch@.len() ==> vx_it1.v@.contains(#[trigger] to_watch@[j]), // OBL:C13.fs_worker.diff_names_exactly_the_stale_and_the_missing_paths
-    forall|i: int| 0 <= i < vx_it1.pos@ && !pathset.v@.contains(#[trigger] vx_it1.v@[i]) ==> to_watch@.contains(vx_it1.v@[i]), // OBL:C13.fs_worker.diff_names_exactly_the_stale_and_the_missing_paths
+    forall|j: int| 0 <= j < to_watch@.len() ==> vx_it1.v@.contains(#[trigger] to_watch@[j]), // OBL:C13+C01.fs_worker.diff_names_exactly_the_stale_and_the_missing_paths
+    forall|i: int| 0 <= i < vx_it1.pos@ && !pathset.v@.contains(#[trigger] vx_it1.v@[i]) ==> to_watch@.contains(vx_it1.v@[i]), // OBL:C13+C01.fs_worker.diff_names_exactly_the_stale_and_the_missing_paths
 ensures
     vx_it1.pos@ == vx_it1.v@.len(),
 body_start:
@@ -109,7 +109,7 @@ body_end:
 proof { lemma_push_contains(tw0, x2); }
 after:
 proof {
-    assert forall|x: WatchedPath| #[trigger] env.cfg_paths@.contains(x) && !pathset.v@.contains(x) implies to_watch@.contains(x) by { // OBL:C13.fs_worker.diff_names_exactly_the_stale_and_the_missing_paths
+    assert forall|x: WatchedPath| #[trigger] env.cfg_paths@.contains(x) && !pathset.v@.contains(x) implies to_watch@.contains(x) by { // OBL:C13+C01.fs_worker.diff_names_exactly_the_stale_and_the_missing_paths
         let i = choose|i: int| 0 <= i < env.cfg_paths@.len() && env.cfg_paths@[i] == x;
         assert(vx_it1.v@[i] == x);
     }
@@ -122,22 +122,22 @@ proof {
 let ghost td = vx_it2.v@;
 proof {
     // the diff just computed: to_watch = configured but not on record, to_drop = on record but not configured
-    assert forall|j: int| 0 <= j < to_watch@.len() implies cfg.contains(#[trigger] to_watch@[j]) by { // OBL:C13.fs_worker.diff_names_exactly_the_stale_and_the_missing_paths
+    assert forall|j: int| 0 <= j < to_watch@.len() implies cfg.contains(#[trigger] to_watch@[j]) by { // OBL:C13+C01.fs_worker.diff_names_exactly_the_stale_and_the_missing_paths
         if p0 =~= Set::<WatchedPath>::empty() { assert(cfg[j] == to_watch@[j]); }
     }
-    assert(forall|x: WatchedPath| #[trigger] cfg.contains(x) && !p0.contains(x) ==> to_watch@.contains(x)); // OBL:C13.fs_worker.diff_names_exactly_the_stale_and_the_missing_paths
-    assert(forall|j: int| 0 <= j < td.len() ==> p0.contains(#[trigger] td[j]) && !cfg.contains(td[j])); // OBL:C13.fs_worker.diff_names_exactly_the_stale_and_the_missing_paths
-    assert(forall|x: WatchedPath| #[trigger] p0.contains(x) && !cfg.contains(x) ==> td.contains(x)); // OBL:C13.fs_worker.diff_names_exactly_the_stale_and_the_missing_paths
+    assert(forall|x: WatchedPath| #[trigger] cfg.contains(x) && !p0.contains(x) ==> to_watch@.contains(x)); // OBL:C13+C01.fs_worker.diff_names_exactly_the_stale_and_the_missing_paths
+    assert(forall|j: int| 0 <= j < td.len() ==> p0.contains(#[trigger] td[j]) && !cfg.contains(td[j])); // OBL:C13+C01.fs_worker.diff_names_exactly_the_stale_and_the_missing_paths
+    assert(forall|x: WatchedPath| #[trigger] p0.contains(x) && !cfg.contains(x) ==> td.contains(x)); // OBL:C13+C01.fs_worker.diff_names_exactly_the_stale_and_the_missing_paths
 }
 invariant
     0 <= vx_it2.pos@ <= vx_it2.v@.len(), vx_it2.v@ == td,
     env.cfg_paths@ == cfg, env.cfg_kind@ == kind0, env.round@ == round0,
     env.err_sent@ == env.err_due@, // OBL:C13+C15.fs_worker.inv_each_failed_registration_reported_once_per_path
-    watcher.kind == kind0, watcher_type == kind0, // OBL:C13.fs_worker.the_active_watcher_is_of_the_configured_kind
-    mirror(Some(*watcher), pathset.v@, watcher_type), // OBL:C13.fs_worker.inv_pathset_mirrors_the_active_watcher
-    forall|x: WatchedPath| pathset.v@.contains(x) ==> p0.contains(x), // OBL:C13.fs_worker.inv_registration_converges_to_the_configuration
-    forall|x: WatchedPath| p0.contains(x) && !vx_it2.v@.contains(x) ==> pathset.v@.contains(x), // OBL:C13.fs_worker.inv_registration_converges_to_the_configuration
-    env.fails@ == 0 ==> forall|j: int| 0 <= j < vx_it2.pos@ ==> !pathset.v@.contains(#[trigger] vx_it2.v@[j]), // OBL:C13.fs_worker.inv_registration_converges_to_the_configuration
+    watcher.kind == kind0, watcher_type == kind0, // OBL:C13+C01.fs_worker.the_active_watcher_is_of_the_configured_kind
+    mirror(Some(*watcher), pathset.v@, watcher_type), // OBL:C13+C01.fs_worker.inv_pathset_mirrors_the_active_watcher
+    forall|x: WatchedPath| pathset.v@.contains(x) ==> p0.contains(x), // OBL:C13+C01.fs_worker.inv_registration_converges_to_the_configuration
+    forall|x: WatchedPath| p0.contains(x) && !vx_it2.v@.contains(x) ==> pathset.v@.contains(x), // OBL:C13+C01.fs_worker.inv_registration_converges_to_the_configuration
+    env.fails@ == 0 ==> forall|j: int| 0 <= j < vx_it2.pos@ ==> !pathset.v@.contains(#[trigger] vx_it2.v@[j]), // OBL:C13+C01.fs_worker.inv_registration_converges_to_the_configuration
 ensures
     vx_it2.pos@ == vx_it2.v@.len(),
 body_start:
@@ -155,7 +155,7 @@ proof {
 after:
 proof {
     if env.fails@ == 0 {
-        assert forall|x: WatchedPath| #[trigger] pathset.v@.contains(x) implies cfg.contains(x) by { // OBL:C13.fs_worker.inv_registration_converges_to_the_configuration
+        assert forall|x: WatchedPath| #[trigger] pathset.v@.contains(x) implies cfg.contains(x) by { // OBL:C13+C01.fs_worker.inv_registration_converges_to_the_configuration
             if !cfg.contains(x) {
                 assert(p0.contains(x));
                 assert(td.contains(x));
@@ -163,7 +163,7 @@ proof {
                 assert(!pathset.v@.contains(vx_it2.v@[j]));
             }
         }
-        assert forall|x: WatchedPath| #[trigger] cfg.contains(x) implies pathset.v@.contains(x) || to_watch@.contains(x) by { // OBL:C13.fs_worker.inv_registration_converges_to_the_configuration
+        assert forall|x: WatchedPath| #[trigger] cfg.contains(x) implies pathset.v@.contains(x) || to_watch@.contains(x) by { // OBL:C13+C01.fs_worker.inv_registration_converges_to_the_configuration
             if p0.contains(x) && td.contains(x) {
                 let j = choose|j: int| 0 <= j < td.len() && td[j] == x;
                 assert(!cfg.contains(td[j]));
@@ -185,13 +185,13 @@ invariant
     0 <= vx_it4.pos@ <= vx_it4.v@.len(), vx_it4.v@ == tw,
     env.cfg_paths@ == cfg, env.cfg_kind@ == kind0, env.round@ == round0,
     env.err_sent@ == env.err_due@, // OBL:C13+C15.fs_worker.inv_each_failed_registration_reported_once_per_path
-    watcher.kind == kind0, watcher_type == kind0, // OBL:C13.fs_worker.the_active_watcher_is_of_the_configured_kind
-    mirror(Some(*watcher), pathset.v@, watcher_type), // OBL:C13.fs_worker.inv_pathset_mirrors_the_active_watcher
+    watcher.kind == kind0, watcher_type == kind0, // OBL:C13+C01.fs_worker.the_active_watcher_is_of_the_configured_kind
+    mirror(Some(*watcher), pathset.v@, watcher_type), // OBL:C13+C01.fs_worker.inv_pathset_mirrors_the_active_watcher
     distinct_paths(cfg),
-    forall|j: int| 0 <= j < tw.len() ==> cfg.contains(#[trigger] tw[j]), // OBL:C13.fs_worker.inv_registration_converges_to_the_configuration
-    env.fails@ == 0 ==> forall|x: WatchedPath| pathset.v@.contains(x) ==> cfg.contains(x), // OBL:C13.fs_worker.inv_registration_converges_to_the_configuration
-    env.fails@ == 0 ==> forall|x: WatchedPath| cfg.contains(x) ==> pathset.v@.contains(x) || vx_it4.v@.contains(x), // OBL:C13.fs_worker.inv_registration_converges_to_the_configuration
-    env.fails@ == 0 ==> forall|j: int| 0 <= j < vx_it4.pos@ ==> pathset.v@.contains(#[trigger] vx_it4.v@[j]), // OBL:C13.fs_worker.inv_registration_converges_to_the_configuration
+    forall|j: int| 0 <= j < tw.len() ==> cfg.contains(#[trigger] tw[j]), // OBL:C13+C01.fs_worker.inv_registration_converges_to_the_configuration
+    env.fails@ == 0 ==> forall|x: WatchedPath| pathset.v@.contains(x) ==> cfg.contains(x), // OBL:C13+C01.fs_worker.inv_registration_converges_to_the_configuration
+    env.fails@ == 0 ==> forall|x: WatchedPath| cfg.contains(x) ==> pathset.v@.contains(x) || vx_it4.v@.contains(x), // OBL:C13+C01.fs_worker.inv_registration_converges_to_the_configuration
+    env.fails@ == 0 ==> forall|j: int| 0 <= j < vx_it4.pos@ ==> pathset.v@.contains(#[trigger] vx_it4.v@[j]), // OBL:C13+C01.fs_worker.inv_registration_converges_to_the_configuration
 ensures
     vx_it4.pos@ == vx_it4.v@.len(),
 body_start:
@@ -206,7 +206,7 @@ proof {
     }
 }
 after:
-proof { lemma_converged(*watcher, pathset.v@, cfg, vx_it4.v@, kind0, env.fails@ == 0); } // OBL:C13.fs_worker.inv_registration_converges_to_the_configuration
+proof { lemma_converged(*watcher, pathset.v@, cfg, vx_it4.v@, kind0, env.fails@ == 0); } // OBL:C13+C01.fs_worker.inv_registration_converges_to_the_configuration
 //@ loop 6
 let ghost n5 = vx_it5.v@.len(); let ghost fl5 = env.fails@;
 invariant
